@@ -5,6 +5,11 @@ import FeatModel.Lemmas.C18_prol
 import FeatModel.Lemmas.C18_pvec
 import FeatModel.Lemmas.C18_csr
 import FeatModel.Lemmas.C18_trunc
+import FeatModel.Lemmas.C18_perm
+import FeatModel.Lemmas.C18_permT
+import FeatModel.Lemmas.C18_spd
+import FeatModel.Lemmas.C18_stride
+import Mathlib.Tactic.IntervalCases
 /-! # C18 — property theorems (statements only; proofs live in Lemmas/C18_*.lean)
 
 All statements are about the functions of `Model/GridTransfer.lean` that the driver `drv_c18` executes in the
@@ -26,6 +31,31 @@ theorem C18.invert_matrix_right_inverse {n stride : Nat} {a : Mat} {det : Rat} {
     ∀ i c, i < n → c < n →
       sumTo n (fun j => FeatModel.GT.get a i j * FeatModel.GT.get b j c) = if i = c then 1 else 0 :=
   C18L.invert_right_inverse h hn hs
+
+/-- **strided storage and pivot array**: `Math::invert_matrix(n, stride, a, p)` on the storage array (`invertFlat`, what
+the driver runs for the `inv` cases with `stride ≥ n` and padding) is the `n×n` algorithm on the block written back:
+same determinant, same pivot array, every position outside the block (the padding of a `Tiny::Matrix` with `sn > n`)
+keeps its value — so the two inverse theorems above apply to the block of the strided result -/
+theorem C18.invert_matrix_strided {n stride : Nat} (a : List Rat) (hn : 0 < n) (hs : n ≤ stride)
+    (hlen : n * stride ≤ a.length) :
+    invertFlat n stride a
+      = (invertMatrix n stride (extractBlock n stride a)).map fun r => (r.1, putBlock n stride a r.2.1, r.2.2) :=
+  C18L.invertFlat_eq a hn hs hlen
+
+/-- **no zero pivot for positive definite input** (`xᵀAx > 0` for `x ≠ 0`; symmetry not needed): the diagonal pivot
+search always finds a positive pivot, the inversion succeeds — the hypothesis of the inverse theorems is discharged -/
+theorem C18.invert_matrix_posdef_succeeds {n : Nat} (a : Mat) (hn : 0 < n)
+    (hpd : ∀ x : Nat → Rat, (∃ i, i < n ∧ x i ≠ 0) →
+      0 < ∑ i ∈ range n, x i * (∑ l ∈ range n, FeatModel.GT.get a i l * x l)) :
+    ∃ det b p, invertMatrix n n a = some (det, b, p) :=
+  C18L.invert_posdef_succeeds a hn hpd
+
+/-- the local mass matrix `M = Σ_k ω_k φ(x_k) φ(x_k)ᵀ` of a rule with positive weights on a unisolvent point set is
+positive definite, hence (previous theorem) inverted without meeting a zero pivot -/
+theorem C18.mass_matrix_inversion_succeeds (nfl : Nat) (pts : List Pt) (hn : 0 < nfl) (hw : ∀ p ∈ pts, 0 < p.w)
+    (huni : ∀ x : Nat → Rat, (∃ i, i < nfl ∧ x i ≠ 0) → ∃ p ∈ pts, ∑ i ∈ range nfl, x i * p.f.getD i 0 ≠ 0) :
+    ∃ det b p, invertMatrix nfl nfl (massF nfl pts) = some (det, b, p) :=
+  C18L.invert_posdef_succeeds _ hn (C18L.massF_posdef nfl pts hw huni)
 
 /-- nested spaces: if at every cubature point the coarse basis functions are the `E`-combinations of the fine ones,
 the inter-level mass matrix is `N = M E` — for *any* cubature rule (no exactness needed) -/
@@ -86,8 +116,8 @@ theorem C18.truncation_left_inverse (d : Dump) (tl : List (List Nat × List (Lis
     ∀ r, r < d.nc → (matVec d.nc d.nf td vf).getD r 0 = xc r :=
   C18L.truncation_exact d tl td vf xc E htl htd hfmap hsame hint
 
-/-- the restriction the driver prints is the exact transpose of the prolongation -/
-theorem C18.restriction_is_transpose {nf nc : Nat} (pd : Mat) {i j : Nat} (hi : i < nc) (hj : j < nf) :
+/-- the dense restriction printed for the `fe` cases is the exact transpose of the prolongation -/
+theorem C18.restriction_dense_is_transpose {nf nc : Nat} (pd : Mat) {i j : Nat} (hi : i < nc) (hj : j < nf) :
     FeatModel.GT.get (transposeDense nf nc pd) i j = FeatModel.GT.get pd j i :=
   C18L.get_transposeDense pd hi hj
 
@@ -100,25 +130,95 @@ theorem C18.matrix_free_agrees (d : Dump) (locs : List (List Nat × List Nat × 
     ∀ r, r < d.nf → vd.getD r 0 = (matVec d.nf d.nc pd xc).getD r 0 :=
   C18L.matrix_free_agrees d locs pd xc vd hpd hvd hmap
 
-/-- `LAFEM::Transfer::prol/rest/trunc` are the products with the stored matrices, and a CSR product is the product
-with the dense meaning of the matrix (duplicates add) -/
-theorem C18.transfer_is_matrix_product (t : Transfer) (x y : List Rat) :
-    t.applyProl x = t.prol.apply x ∧ t.applyRest y = t.rest.apply y ∧ t.applyTrunc y = t.trunc.apply y ∧
-    ∀ (m : Csr) (v : List Rat) (i : Nat), i < m.rows → (∀ e ∈ m.row i, e.1 < m.cols) →
-      (m.apply v).getD i 0 = ∑ j ∈ range m.cols, m.dense i j * v.getD j 0 :=
-  ⟨rfl, rfl, rfl, fun m v _ hi hc => C18L.csr_apply_dense m v hi hc⟩
+/-- **restriction is the exact transpose of the prolongation — at array level.**  `Transfer.ofProl P T` is what
+`control/asm/transfer_asm.hpp` builds (`rest = prol.transpose()`, C02's loop-for-loop counting-sort model, executed by
+the driver for every `xfer` and `fe` case): swapped dimensions, structurally valid layout, `R(j,i) = P(i,j)` -/
+theorem C18.restriction_is_transpose (P T : FeatModel.LA.Csr Rat) (hP : P.valid = true) :
+    (Transfer.ofProl P T).rest.rows = P.cols ∧ (Transfer.ofProl P T).rest.cols = P.rows ∧
+    (Transfer.ofProl P T).rest.valid = true ∧
+    ∀ i j, i < P.rows → j < P.cols → (Transfer.ofProl P T).rest.entry j i = P.entry i j :=
+  C18L.rest_spec P T hP
 
-/-- full statement for the CSR counting-sort transposition used for `rest = prol.transpose()`; NOT proved here
-(it is property C02's theorem); the correspondence run compares the model's CSR arrays with the real ones and the
-oracle checks `R = Pᵀ` on every case. -/
-def C18.CsrTransposeStatement : Prop :=
-  ∀ (m : Csr), m.rowPtr.length = m.rows + 1 → (∀ i, i < m.rows → ∀ e ∈ m.row i, e.1 < m.cols) →
-    ∀ i l, i < m.rows → l < m.cols → m.transpose.dense l i = m.dense i l
+/-- `LAFEM::Transfer::prol / rest / trunc` never abort on matching sizes and are the products with `P`, `Pᵀ`, `T`
+(dense meaning of the stored CSR arrays; the output vector is overwritten) -/
+theorem C18.transfer_is_matrix_product (P T : FeatModel.LA.Csr Rat) (hP : P.valid = true) (hT : T.valid = true)
+    (hTr : T.rows = P.cols) (hTc : T.cols = P.rows)
+    (xc vf0 yf vc0 : Array Rat) (hxc : xc.size = P.cols) (hvf : vf0.size = P.rows) (hyf : yf.size = P.rows)
+    (hvc : vc0.size = P.cols) :
+    (∃ xp, (Transfer.ofProl P T).applyProl vf0 xc = some xp ∧
+        ∀ i, i < P.rows → xp.getD i 0 = ∑ j ∈ range P.cols, P.entry i j * xc.getD j 0) ∧
+    (∃ xr, (Transfer.ofProl P T).applyRest yf vc0 = some xr ∧
+        ∀ j, j < P.cols → xr.getD j 0 = ∑ i ∈ range P.rows, P.entry i j * yf.getD i 0) ∧
+    (∃ xt, (Transfer.ofProl P T).applyTrunc yf vc0 = some xt ∧
+        ∀ j, j < P.cols → xt.getD j 0 = ∑ i ∈ range P.rows, T.entry j i * yf.getD i 0) :=
+  C18L.transfer_products P T hP hT hTr hTc xc vf0 yf vc0 hxc hvf hyf hvc
 
-/-- proved part: the transposed matrix has the swapped dimensions and the restriction printed for the `fe` cases
-(dense transposition) is the exact transpose; the array-level statement above is left to C02 -/
-theorem C18.csr_transpose_partial (m : Csr) : m.transpose.rows = m.cols ∧ m.transpose.cols = m.rows :=
-  ⟨rfl, rfl⟩
+/-! ### mesh permutation states
+
+`TwoLevel` is the data of a coarse/fine mesh pair in *mesh* numbering together with the two lookups the assembly loops
+perform (`coarsePerm` = `get_perm()` of the coarse mesh, `fineInvPerm` = `get_inv_perm()` of the fine mesh, `[]` = the
+empty permutation of an unpermuted mesh); `TwoLevel.toDump` is the loop nest `for ccell, for child` with
+`fcell = fine_inv_perm(calc_fcell(coarse_perm(ccell), child))` that `drv_c18` executes for every `fe` case.
+`C18L.permutedPair m0 pc pf pfinv σc σf` is the pair obtained from the unpermuted pair `m0` by permuting the coarse
+cells with `pc` / renumbering the coarse dofs with `σc` and the fine cells with `pf` / fine dofs with `σf`
+(`pc = []`, `σc = id`: coarse mesh not permuted; `pf = pfinv = []`, `σf = id`: fine mesh not permuted), so the four
+states none/none, coarse only, fine only, both are instances of the same statement. -/
+
+/-- **perm_invariance, assembled prolongation**: `P'(σf r, σc s) = P(r, s)`, hence `P·interp_c = interp_f` is
+preserved (and `C18.prolongation_exact` applies to the permuted loop nest directly, as it holds for every `Dump`) -/
+theorem C18.perm_invariance_prolongation (m0 : TwoLevel) (pc pf pfinv : List Nat) {σc σf : Nat → Nat}
+    (hc : Function.Injective σc) (hf : Function.Injective σf) (hok : C18L.PermOK m0 pc pf pfinv)
+    {locs0 locsP : List (List Nat × List Nat × Mat)} {pd0 pdP : Mat}
+    (h0 : localProls m0.toDump = .ok locs0)
+    (hP : localProls (C18L.permutedPair m0 pc pf pfinv σc σf).toDump = .ok locsP)
+    (hd0 : prolDirect m0.toDump locs0 = some pd0)
+    (hdP : prolDirect (C18L.permutedPair m0 pc pf pfinv σc σf).toDump locsP = some pdP)
+    {r s : Nat} (hr : r < m0.nf) (hs : s < m0.nc) (hr' : σf r < m0.nf) (hs' : σc s < m0.nc) :
+    FeatModel.GT.get pdP (σf r) (σc s) = FeatModel.GT.get pd0 r s :=
+  C18L.perm_invariance_matrix m0 pc pf pfinv hc hf hok h0 hP hd0 hdP hr hs hr' hs'
+
+/-- **perm_invariance, matrix-free `prolongate_vector_direct`**: with the coarse vector renumbered by `σc`, the result
+is the unpermuted result renumbered by `σf` -/
+theorem C18.perm_invariance_matrix_free (m0 : TwoLevel) (pc pf pfinv : List Nat) {σc σf : Nat → Nat}
+    (hf : Function.Injective σf) (hok : C18L.PermOK m0 pc pf pfinv)
+    {locs0 locsP : List (List Nat × List Nat × Mat)} {xc xcP vd0 vdP : List Rat}
+    (h0 : localProls m0.toDump = .ok locs0)
+    (hP : localProls (C18L.permutedPair m0 pc pf pfinv σc σf).toDump = .ok locsP)
+    (hx : ∀ s, xcP.getD (σc s) 0 = xc.getD s 0)
+    (hv0 : scaleVec (pvecRaw m0.toDump locs0 xc) (prolWeights m0.toDump locs0) = some vd0)
+    (hvP : scaleVec (pvecRaw (C18L.permutedPair m0 pc pf pfinv σc σf).toDump locsP xcP)
+      (prolWeights (C18L.permutedPair m0 pc pf pfinv σc σf).toDump locsP) = some vdP)
+    {r : Nat} (hr : r < m0.nf) (hr' : σf r < m0.nf) :
+    vdP.getD (σf r) 0 = vd0.getD r 0 :=
+  C18L.perm_invariance_vector m0 pc pf pfinv hf hok h0 hP hx hv0 hvP hr hr'
+
+/-- **perm_invariance, assembled truncation**: `T'(σc r, σf s) = T(r, s)` -/
+theorem C18.perm_invariance_truncation (m0 : TwoLevel) (pc pf pfinv : List Nat) {σc σf : Nat → Nat}
+    (hc : Function.Injective σc) (hf : Function.Injective σf) (hok : C18L.PermOK m0 pc pf pfinv)
+    {tl0 tlP : List (List Nat × List (List Nat × Mat))} {td0 tdP : Mat}
+    (h0 : localTruncs m0.toDump = .ok tl0)
+    (hP : localTruncs (C18L.permutedPair m0 pc pf pfinv σc σf).toDump = .ok tlP)
+    (hd0 : scaleRows m0.nf (truncRaw m0.toDump tl0) (truncWeights m0.toDump tl0) = some td0)
+    (hdP : scaleRows m0.nf (truncRaw (C18L.permutedPair m0 pc pf pfinv σc σf).toDump tlP)
+      (truncWeights (C18L.permutedPair m0 pc pf pfinv σc σf).toDump tlP) = some tdP)
+    {r s : Nat} (hr : r < m0.nc) (hs : s < m0.nf) (hr' : σc r < m0.nc) (hs' : σf s < m0.nf) :
+    FeatModel.GT.get tdP (σc r) (σf s) = FeatModel.GT.get td0 r s :=
+  C18L.perm_invariance_trunc m0 pc pf pfinv hc hf hok h0 hP hd0 hdP hr hs hr' hs'
+
+/-- the permutation hypotheses are satisfiable by a genuinely permuted pair (2 coarse cells, 2 children each, both
+meshes permuted) … -/
+example : C18L.PermOK (TwoLevel.mk 0 0 2 0 [default, default] [default, default, default, default] [] []) [1, 0] [2, 0, 3, 1] [1, 3, 0, 2] := by
+  refine ⟨rfl, rfl, by decide, ?_⟩
+  intro c child hc hch
+  simp only [List.length_cons, List.length_nil] at hc
+  interval_cases c <;> interval_cases child <;> simp [lookup, calcFcell]
+
+/-- … and by the four states with one of the meshes left alone (`[]` = empty permutation) -/
+example : C18L.PermOK (TwoLevel.mk 0 0 2 0 [default, default] [default, default, default, default] [] []) [] [] [] := by
+  refine ⟨rfl, rfl, by decide, ?_⟩
+  intro c child hc hch
+  simp only [List.length_cons, List.length_nil] at hc
+  interval_cases c <;> interval_cases child <;> simp [lookup, calcFcell]
 
 /-! ### the hypotheses are satisfiable by non-trivial values; the documented limitation of the pivot search -/
 
